@@ -747,6 +747,7 @@ def correspond(ctx):
             ctx.broke('correspondence', 'C07.module', f"{fmt_case(c)} diverges from Model/Timeline.lean: {div}", data=dict(kind='mod', **c))
             if ndiv >= 5: break
     correspond_update(ctx)
+    correspond_zoo(ctx)
     check_consts(ctx)
 
 
@@ -910,6 +911,15 @@ def oracle_case(case):
                     break
     if 'err' in r:
         return fails, dict(rejected=r['err'])
+    f2, info = judge_run(s, r)
+    return fails + f2, info
+
+
+def judge_run(s, r):
+    """ The property on one accepted, observed run: s = the sim's specification as the user wrote it (decimal strings /
+        D-dates), r = dict(sim=obs, mods={name: obs}, modpars={name: what the constructed module held before sim.init()}).
+        Returns (fails, info) """
+    fails = []
     so = r['sim']
     sspec = resolved_spec(so, s.get('unit'), s)
     # the user's numbers, where given, are the reference for a numeric sim (stop = start + dur exactly)
@@ -933,7 +943,9 @@ def oracle_case(case):
         mspec = resolved_spec(mo, None, None)
         mobs = to_obs(mo)
         # what the constructed module held before sim.init() (its own overrides and its class defaults)
-        gp = r['modpars'].get(name) or dict(unit=None, start=None, stop=None, dt=None)
+        gp = r['modpars'].get(name)
+        if gp is None:      # a module made during sim.init(): nothing is known about what it asked for, so only its own resolved values are used
+            gp = dict(unit=mo['unit'], start=mo['start'], stop=mo['stop'], dt=mo['dt']) if r.get('made_at_init') and name in r['made_at_init'] else dict(unit=None, start=None, stop=None, dt=None)
         def gstr(x):
             if x is None: return None
             if hasattr(x, 'year'): return 'D' + iso(x)
@@ -1008,6 +1020,7 @@ def search(ctx):
             ctx.count('oracle_run_scenarios')
         except Exception as e:
             ctx.broke('search', 'C07.run', f'run scenario {simkw} {probekw} raised {type(e).__name__}: {e}')
+    search_zoo(ctx)
     for case in cases:
         try:
             fails, info = oracle_case(case)
@@ -1032,22 +1045,30 @@ RUN_SCENARIOS = [
 ]
 
 
+def make_probe(**kw):
+    """ an analyzer that logs, at each of its calls, its own step counter / now() and the sim's """
+    import starsim as ss
+    class Probe(ss.Analyzer):
+        def __init__(self, **kw2):
+            super().__init__(**kw2); self.log = []
+        def step(self):
+            t, st = self.t, self.sim.t
+            self.log.append(dict(ti=int(t.ti), year=float(t.now('year')), tvec=float(t.now('tvec')), sim_ti=int(st.ti), sim_year=float(st.now('year')), sim_tvec=float(st.now('tvec'))))
+    return Probe(**kw)
+
+
 def oracle_scheduled_now(simkw, probekw):
     """ Run a small sim with a probe on its own timeline: at the probe's k-th call its step counter is k, now() in every
         representation is its own point k, and that point is the instant the loop is at: after the sim's previous point
         and not after the sim's current one (elapsed axis) """
     import starsim as ss
-    class Probe(ss.Analyzer):
-        def __init__(self, **kw):
-            super().__init__(**kw); self.log = []
-        def step(self):
-            t, st = self.t, self.sim.t
-            self.log.append(dict(ti=int(t.ti), year=float(t.now('year')), tvec=float(t.now('tvec')), sim_ti=int(st.ti), sim_year=float(st.now('year')), sim_tvec=float(st.now('tvec'))))
-    sim = ss.Sim(n_agents=N_AGENTS, verbose=0, diseases='sis', networks='random', analyzers=Probe(**probekw), **simkw)
+    sim = ss.Sim(n_agents=N_AGENTS, verbose=0, diseases='sis', networks='random', analyzers=make_probe(**probekw), **simkw)
     sim.run()
-    p = sim.analyzers[0]
+    return probe_fails(sim, sim.analyzers[0], f'probe({probekw}) in ss.Sim({simkw})')
+
+
+def probe_fails(sim, p, who):
     fails = []
-    who = f'probe({probekw}) in ss.Sim({simkw})'
     def fail(cause, what): fails.append(dict(signature=dict(oracle='scheduled-now', cause=cause), what=f'{who}: {what}'))
     abst = [float(x) for x in p.t.abstvec]; stv = [float(x) for x in sim.t.tvec]; yv = [float(x) for x in p.t.yearvec]
     eps = float(ref.TOL)
@@ -1065,6 +1086,210 @@ def oracle_scheduled_now(simkw, probekw):
     return fails
 
 
+# ---------------------------------------------------------------------------
+# the shared scenario zoo (harness/zoo.py): whole runs of unusual-but-valid configurations; the timeline of the sim and of
+# EVERY module (also nested ones: the product of an intervention, the pools of MixingPools) is observed after sim.init()
+# and again after sim.run()
+
+PROBE_NAMES = ('c07probe', 'c07probe2')
+
+
+def cfg_spec(cfg):
+    """ the time specification of an impl.py configuration in this module's notation (decimal strings / D-dates; pyval()
+        gives back the very Python values impl.build_sim hands to ss.Sim: ints stay ints) """
+    def sv(x):
+        if x is None: return None
+        if isinstance(x, str):
+            y, m, d = (int(p) for p in x.replace('.', '-').split('-')[:3]); return f'D{y:04d}-{m:02d}-{d:02d}'
+        if isinstance(x, bool): raise ValueError(x)
+        if isinstance(x, int): return str(x)
+        return repr(float(x))
+    s = dict(family='zoo', unit=cfg.get('unit'))
+    for k in ('start', 'stop', 'dur', 'dt'):
+        if cfg.get(k) is not None: s[k] = sv(cfg[k])
+    return s
+
+
+def nested_modules(roots):
+    """ the given modules and the modules held in their attributes (directly, or in a list / dict), each once """
+    import starsim as ss
+    out, seen = [], set()
+    def visit(m, depth):
+        if id(m) in seen: return
+        seen.add(id(m)); out.append(m)
+        if depth >= 2: return
+        for v in list(vars(m).values()):
+            items = v if isinstance(v, (list, tuple)) else list(v.values()) if isinstance(v, dict) else [v]
+            for x in items:
+                if isinstance(x, ss.Module): visit(x, depth + 1)
+    for m in roots: visit(m, 0)
+    return out
+
+
+def given_modules(sim):
+    """ the module objects of a sim that is not initialised yet """
+    import starsim as ss
+    roots = []
+    for v in sim.pars.values():
+        items = v if isinstance(v, (list, tuple)) else list(v.values()) if isinstance(v, dict) else [v]
+        roots += [x for x in items if isinstance(x, ss.Module)]
+    return nested_modules(roots)
+
+
+def snapshot(sim, pre):
+    """ run_impl's format for any sim object: every module's observed timeline and result lengths """
+    out = dict(sim=observe_time(sim.t), mods={}, modpars={}, made_at_init=[])
+    out['sim']['reslens'] = result_lens(sim.results, sim.t)
+    for m in nested_modules(list(sim.modules)):
+        name = m.name
+        while name in out['mods']: name += '#'
+        o = observe_time(m.t)
+        o['reslens'] = result_lens(m.results, m.t)
+        out['mods'][name] = o
+        if id(m) in pre: out['modpars'][name] = pre[id(m)]
+        else: out['made_at_init'].append(name)
+    return out
+
+
+_ZOO_RUNS = {}
+
+
+def run_zoo(name, cfg):
+    """ build -> (parameters the modules hold) -> init -> observe -> run -> observe again; cached per process.
+        Two probes ride along: one on the sim's timeline, one at twice the sim's dt """
+    if name in _ZOO_RUNS: return _ZOO_RUNS[name]
+    from harness import impl
+    out = dict(spec=cfg_spec(cfg))
+    try:
+        def build():
+            probes = [make_probe(name=PROBE_NAMES[0]), make_probe(name=PROBE_NAMES[1], dt=2.0 * float(cfg.get('dt', 1.0)))]
+            sim = impl.build_sim(cfg, extra_analyzers=probes)
+            pre = {id(m): dict(unit=m.t.unit, start=m.t.start, stop=m.t.stop, dt=m.t.dt) for m in given_modules(sim)}
+            sim.init()
+            return sim, pre
+        sim, pre = with_timeout(TIME_LIMIT, build)
+    except (Exception, Hang) as e:
+        out.update(err=err_kind(e), exc=f'{type(e).__name__}: {str(e)[:200]}')
+        _ZOO_RUNS[name] = out
+        return out
+    out['init'] = snapshot(sim, pre)
+    try:
+        with_timeout(3 * TIME_LIMIT, sim.run)
+        out['run'] = snapshot(sim, pre)
+        out['probe_fails'] = [f for i, pn in enumerate(PROBE_NAMES) for f in probe_fails(sim, sim.analyzers[pn], f'probe({"" if i == 0 else "dt=2*sim.dt"})')]
+    except (Exception, Hang) as e:
+        out.update(run_err=err_kind(e), run_exc=f'{type(e).__name__}: {str(e)[:200]}')
+    _ZOO_RUNS[name] = out
+    return out
+
+
+VEC_KEYS = ('npts', 'numeric', 'timevec', 'yearvec', 'datevec', 'tvec', 'abstvec')
+
+
+def oracle_zoo(name, cfg):
+    """ the timeline-consistency oracle on one zoo entry: after init and after the run.  Returns (fails, info) """
+    z = run_zoo(name, cfg)
+    s = z['spec']
+    if z.get('err') == 'E:Hang':
+        return [dict(signature=dict(oracle='termination', cause='other'), what=f'sim{fmt_spec(s)}: ss.Sim(...).init() did not return within {TIME_LIMIT} s')], dict(rejected='E:Hang')
+    if 'err' in z:
+        return [], dict(rejected=z['err'], exc=z['exc'])       # not accepted: outside the property (the correspondence reports it)
+    fails, info = judge_run(s, z['init'])
+    if z.get('run_err') == 'E:Hang':
+        fails.append(dict(signature=dict(oracle='termination', cause='run'), what=f'sim{fmt_spec(s)}: sim.run() did not return within {3 * TIME_LIMIT} s'))
+    if 'run' in z:
+        a, b = z['init'], z['run']
+        # the timelines are fixed at init: running the sim must not move, extend or shorten them
+        for nm in ['<sim>'] + sorted(a['mods']):
+            oa = a['sim'] if nm == '<sim>' else a['mods'][nm]
+            ob = b['sim'] if nm == '<sim>' else b['mods'].get(nm)
+            k = 'module' if ob is None else next((k for k in VEC_KEYS if oa[k] != ob[k]), None)
+            if k:
+                fails.append(dict(signature=dict(oracle='run', cause='timeline-changed'), what=f'sim{fmt_spec(s)}: {k} of {nm} after sim.run() differs from what sim.init() made'))
+                break
+        seen = {json.dumps(f['signature'], sort_keys=True) + f['what'] for f in fails}
+        f2, _ = judge_run(s, b)
+        for f in f2:
+            if json.dumps(f['signature'], sort_keys=True) + f['what'] not in seen:
+                fails.append(dict(signature=f['signature'], what='after sim.run(): ' + f['what']))
+        fails += z.get('probe_fails', [])
+    else:
+        info['run_raised'] = z.get('run_exc')
+    return fails, info
+
+
+def search_zoo(ctx):
+    from harness import zoo
+    for name, cfg in zoo.configs():
+        try:
+            fails, info = oracle_zoo(name, cfg)
+        except Exception as e:
+            ctx.count('zoo_exceptions'); ctx.notes['last_zoo_exception'] = f'{name}: {type(e).__name__}: {e}'; continue
+        if info.get('rejected') or info.get('run_raised'):
+            # the entry did not get through the real code (every entry does on the unchanged tree): not a timeline to judge
+            ctx.count('zoo_exceptions'); ctx.notes['last_zoo_exception'] = f"{name}: starsim raised {info.get('exc') or info.get('run_raised')}"
+            if info.get('rejected') and not fails: continue
+        ctx.count('zoo_runs')
+        z = _ZOO_RUNS[name]
+        ctx.count('zoo_timelines', 1 + len(z.get('init', {}).get('mods', {})))
+        for f in fails:
+            ctx.fail(f['signature'], f'[zoo:{name}] ' + f['what'], dict(kind='zoo', name=name, cfg=cfg))
+
+
+def correspond_zoo(ctx):
+    """ every zoo entry against Model/Timeline.lean: the sim's timeline and one model line per module with the parameters
+        the constructed module really held; compared after init and again after the run """
+    from harness import zoo
+    runs = []; all_lines = []
+    for name, cfg in zoo.configs():
+        try:
+            z = run_zoo(name, cfg)
+            s = z['spec']
+            lines = [sim_line('sim', s)]; names = [None]
+            for nm, mp in (z.get('init') or {}).get('modpars', {}).items():
+                lines.append(mod_pars_line(s, mp)); names.append(nm)
+        except Exception as e:
+            ctx.count('zoo_exceptions'); ctx.notes['last_zoo_exception'] = f'{name}: {type(e).__name__}: {e}'; continue
+        runs.append((name, cfg, z, lines, names, len(all_lines)))
+        all_lines += lines
+    all_out = ctx.drive(DRIVER, all_lines) if all_lines else []
+    ndiv = 0
+    for name, cfg, z, lines, names, off in runs:
+        s = z['spec']
+        out = all_out[off:off + len(lines)]
+        ms = [parse_model(o) for o in out]
+        data = dict(kind='zoo', name=name, cfg=cfg)
+        if any(m['kind'] == 'bad' for m in ms):
+            ctx.broke('correspondence', 'C07.driver', f'[zoo:{name}] driver rejected one of {lines}: {out}', data=data); continue
+        if any(m['kind'] == 'unsupported' for m in ms):
+            ctx.count('unsupported_skipped'); continue
+        ctx.count('zoo_correspond_runs')
+        div = None
+        if 'err' in z:
+            errs = [m['err'] for m in ms if m['kind'] == 'err']
+            if not errs: div = f"impl raised {z['exc']} but the model accepts the sim and its modules"
+        else:
+            for phase in ('init', 'run'):
+                r = z.get(phase)
+                if r is None: continue
+                for nm, m, ln in zip(names, ms, lines):
+                    if m['kind'] == 'err':
+                        div = f"model rejects `{ln}` with {m['err']} but the code accepts"; break
+                    o = r['sim'] if nm is None else r['mods'].get(nm)
+                    if o is None:
+                        div = f'module {nm} missing after {phase}'; break
+                    d = compare_obs(ctx, o, m)
+                    if d:
+                        div = f"after {phase}: {'sim' if nm is None else 'module ' + nm}: {d}"; break
+                    ctx.count('zoo_timelines_compared')
+                if div: break
+        ctx.case(('zoo', name), nontrivial=True, sample=dict(kind='zoo', name=name, spec=s, lines=lines[:4]) if ndiv == 0 and name in ('week-module-in-year-sim', 'deaths-window') else None)
+        if div:
+            ndiv += 1
+            ctx.broke('correspondence', 'C07.zoo', f'[zoo:{name}] sim{fmt_spec(s)} diverges from Model/Timeline.lean: {div}', data=data)
+            if ndiv >= 5: break
+
+
 def replay(ctx, data):
     set_eps(None)
     if data.get('kind') == 'run':
@@ -1076,6 +1301,11 @@ def replay(ctx, data):
         return any(a[k] != b[k] for k in ('npts', 'timevec', 'yearvec', 'datevec', 'tvec'))
     if data.get('kind') == 'update':
         return False
+    if data.get('kind') == 'zoo':
+        fails, info = oracle_zoo(data['name'], data['cfg'])
+        for f in fails[:5]:
+            print('  ' + f['what'][:300], f['signature'])
+        return bool(fails)
     fails, info = oracle_case(data)
     for f in fails[:5]:
         print('  ' + f['what'][:300], f['signature'])
